@@ -7,14 +7,8 @@
 open Model
 open Conv
 
-let mismatches = ref 0
-let specviol = ref 0
+open Common
 let cases = ref 0
-let classes : (string, int) Hashtbl.t = Hashtbl.create 64
-let bump k = Hashtbl.replace classes k (1 + (try Hashtbl.find classes k with Not_found -> 0))
-
-let report_mismatch line m = incr mismatches; Printf.printf "MISMATCH %s :: model=%s\n" line m
-let report_spec line m = incr specviol; Printf.printf "SPECVIOL %s :: spec=%s\n" line m
 
 let stype_of_int = function 1 -> Heuristic | 2 -> MateInX | 3 -> Inf | 4 -> NegInf | _ -> Invalid
 let int_of_stype = function Invalid -> 0 | Heuristic -> 1 | MateInX -> 2 | Inf -> 3 | NegInf -> 4
@@ -25,7 +19,7 @@ let score_str (s : score) : string =
   Printf.sprintf "%d %d %d" (int_of_stype s.sty) (int_of_z s.smate) (int_of_z s.sbits)
 let bool_str b = if b then "1" else "0"
 
-let split_words s = List.filter (fun w -> w <> "") (String.split_on_char ' ' s)
+let split_words = words
 
 (* the monitors' domain: every constructor-built score except Invalid, NaN and Mate = 0 *)
 let in_domain (s : score) : bool =
